@@ -599,6 +599,10 @@ func (ev *evaluator) call(x ECall) *Val {
 	case "floor":
 		a := ev.eval(x.Args[0])
 		return intVal("(to_int " + a.Tm + ")")
+	case "isnew": // isnew(x): x refers to an object allocated by this function activation (or is nil)
+		a := ev.eval(x.Args[0])
+		r := ev.asRef(a)
+		return boolVal(or(eq(r, "0"), "(> (obj_root "+r+") "+ev.vf.entryFrontier+")"))
 	case "isnil":
 		a := ev.eval(x.Args[0])
 		return boolVal(eq(a.Tm, zeroOfSort(a.S)))
@@ -782,7 +786,7 @@ func (vf *VerifyFunc) checkPost(st *State, fr *Frame, rs []*Val, in ssa.Instruct
 		st.check("post", lbl(c, fmt.Sprint(i)), c.Prop, c.Src, where, t)
 	}
 	if vf.fc.HasMod {
-		vf.checkFrame(st, where)
+		vf.checkFrame(st, where, "frame")
 	}
 	if vf.lockcheck {
 		// every lock acquired on this path is released at exit (unless the contract says it stays held)
@@ -803,23 +807,37 @@ func (vf *VerifyFunc) checkPost(st *State, fr *Frame, rs []*Val, in ssa.Instruct
 	}
 }
 
-// checkFrame: every heap array that changed did so only at locations listed in modifies.
-func (vf *VerifyFunc) checkFrame(st *State, where string) {
-	allowed := map[string][]string{}
-	wild := map[string]bool{}
+// frameAllowed evaluates the modifies clause (in the entry state) into per-heap-key allowed references.
+func (vf *VerifyFunc) frameAllowed(st *State) (allowed map[string][]string, wild map[string]bool, everything bool) {
+	allowed = map[string][]string{}
+	wild = map[string]bool{}
+	evalOld := func(x Expr) *Val {
+		ev := &evaluator{st: st, vf: vf, env: vf.env, pkgPath: vf.fc.PkgPath}
+		save := st.useOld
+		saveOH := st.oldHeap
+		st.useOld = true
+		st.oldHeap = nil
+		r := ev.eval(x)
+		st.useOld = save
+		st.oldHeap = saveOH
+		return r
+	}
 	for _, m := range vf.fc.Modifies {
 		switch x := m.E.(type) {
 		case EIdent:
 			if x.Name == "everything" {
-				return
+				return nil, nil, true
 			}
 		case ESel:
 			ev := &evaluator{st: st, vf: vf, env: vf.env, pkgPath: vf.fc.PkgPath}
 			save := st.useOld
+			saveOH := st.oldHeap
 			st.useOld = true
+			st.oldHeap = nil
 			base := ev.eval(x.X)
 			key, _, ref, ok := ev.fieldLoc(base, x.Name)
 			st.useOld = save
+			st.oldHeap = saveOH
 			if ok {
 				allowed[key] = append(allowed[key], ref)
 			}
@@ -830,12 +848,8 @@ func (vf *VerifyFunc) checkFrame(st *State, where string) {
 					wild[key] = true
 					continue
 				}
-				ev := &evaluator{st: st, vf: vf, env: vf.env, pkgPath: vf.fc.PkgPath}
-				save := st.useOld
-				st.useOld = true
-				r := ev.eval(x.Args[0])
-				st.useOld = save
-				allowed[key] = append(allowed[key], ev.asRef(r))
+				ev := &evaluator{st: st, vf: vf}
+				allowed[key] = append(allowed[key], ev.asRef(evalOld(x.Args[0])))
 			}
 			if x.Fun == "heap" {
 				if s, ok := x.Args[0].(EStr); ok {
@@ -843,11 +857,7 @@ func (vf *VerifyFunc) checkFrame(st *State, where string) {
 				}
 			}
 			if x.Fun == "mapof" {
-				ev := &evaluator{st: st, vf: vf, env: vf.env, pkgPath: vf.fc.PkgPath}
-				save := st.useOld
-				st.useOld = true
-				r := ev.eval(x.Args[0])
-				st.useOld = save
+				r := evalOld(x.Args[0])
 				if r.T != nil {
 					if _, isMap := r.T.Underlying().(*types.Map); isMap {
 						dk, _, vk, _, lk, _, _ := mapHeap(r.T)
@@ -858,17 +868,34 @@ func (vf *VerifyFunc) checkFrame(st *State, where string) {
 				}
 			}
 			if x.Fun == "elems" {
-				ev := &evaluator{st: st, vf: vf, env: vf.env, pkgPath: vf.fc.PkgPath}
-				save := st.useOld
-				st.useOld = true
-				r := ev.eval(x.Args[0])
-				st.useOld = save
+				r := evalOld(x.Args[0])
 				if r.S == SSlice {
 					es := sortOf(r.T.Underlying().(*types.Slice).Elem())
 					allowed["E:"+es] = append(allowed["E:"+es], "(s_base "+r.Tm+")")
 				}
 			}
 		}
+	}
+	return allowed, wild, false
+}
+
+// frameGoal: objects that existed at entry (root at or below the entry allocation frontier) and are not listed
+// in modifies hold the same value in heap array cur as in the entry heap.
+func (vf *VerifyFunc) frameGoal(st *State, k, cur string, allowed []string) string {
+	n0 := st.initialHeapName(k, 0)
+	st.declare(n0, st.eng.heapSort(k))
+	ex := []string{"(<= (obj_root fr_r) " + vf.entryFrontier + ")"}
+	for _, r := range allowed {
+		ex = append(ex, not(eq("fr_r", r)))
+	}
+	return "(forall ((fr_r Int)) (! (=> " + and(ex...) + " (= (select " + cur + " fr_r) (select " + sym(n0) + " fr_r))) :pattern ((select " + cur + " fr_r))))"
+}
+
+// checkFrame: every heap array that changed did so only at locations listed in modifies.
+func (vf *VerifyFunc) checkFrame(st *State, where, kind string) {
+	allowed, wild, everything := vf.frameAllowed(st)
+	if everything {
+		return
 	}
 	var keys []string
 	for k := range st.heap {
@@ -879,28 +906,39 @@ func (vf *VerifyFunc) checkFrame(st *State, where string) {
 		if strings.HasPrefix(k, "L:") || strings.HasPrefix(k, "V:err:") || wild[k] {
 			continue
 		}
-		as := st.eng.heapSort(k)
 		n0 := st.initialHeapName(k, 0)
 		cur := st.heap[k]
 		if cur == sym(n0) {
 			continue
 		}
-		st.declare(n0, as)
 		if strings.HasPrefix(k, "V:") {
-			st.check("frame", k, "", "package variable "+k+" not in modifies", where, eq(cur, sym(n0)))
+			st.declare(n0, st.eng.heapSort(k))
+			st.check(kind, k, "", "package variable "+k+" not in modifies", where, eq(cur, sym(n0)))
 			continue
 		}
-		// objects allocated by this function are exempt: they are not allocated in the pre-state.
-		var ex []string
-		for _, r := range allowed[k] {
-			ex = append(ex, not(eq("fr_r", r)))
+		st.check(kind, k, "", "only locations in modifies change ("+k+")", where, vf.frameGoal(st, k, cur, allowed[k]))
+	}
+}
+
+// assumeLoopFrame: after a loop header havoc the frame condition (an implicit loop invariant, re-checked at every
+// back edge and return) is assumed for the havocked heap arrays.
+func (vf *VerifyFunc) assumeLoopFrame(st *State, keys []string) {
+	if vf.fc == nil || !vf.fc.HasMod || len(st.frames) != 1 {
+		return
+	}
+	allowed, wild, everything := vf.frameAllowed(st)
+	if everything {
+		return
+	}
+	for _, k := range keys {
+		if strings.HasPrefix(k, "L:") || strings.HasPrefix(k, "V:") || wild[k] {
+			continue
 		}
-		for _, r := range st.freshRefs {
-			ex = append(ex, not(eq("(obj_root fr_r)", r)))
+		cur, ok := st.heap[k]
+		if !ok {
+			continue
 		}
-		ex2 := ex
-		goal := "(forall ((fr_r Int)) (=> " + and(ex2...) + " (= (select " + cur + " fr_r) (select " + sym(n0) + " fr_r))))"
-		st.check("frame", k, "", "only locations in modifies change ("+k+")", where, goal)
+		st.assume(vf.frameGoal(st, k, cur, allowed[k]))
 	}
 }
 
